@@ -6,6 +6,7 @@ inner comments, newlines and identities in all six spellings (plus
 lower-precedence decoys).  Oracle: abstract ordered-group store with a version
 counter; lookups by name, name#id, $name.csvpaths.id, :from, :to through the live
 and a fresh instance; manifest and group file read from disk."""
+import datetime as _dt
 import hashlib
 import json
 import os
@@ -120,7 +121,7 @@ def generate(rng, i, tier):
             opsl.append({"op": "remove", "group": g})
         else:
             opsl.append({"op": "restart"})
-    return {"seed": rng.getrandbits(32), "listdir_salt": rng.choice([None, rng.getrandbits(16)]), "ops": opsl}
+    return {"seed": rng.getrandbits(32), "listdir_salt": rng.choice([None, rng.getrandbits(16)]), "ops": opsl, "clock": rng.choice(["frozen", "frozen", "tick", "jumps"])}
 
 
 def reductions(sc):
@@ -142,6 +143,8 @@ def reductions(sc):
                 yield c
     if sc.get("listdir_salt") is not None:
         yield with_(sc, listdir_salt=None)
+    if sc.get("clock", "frozen") != "frozen":
+        yield with_(sc, clock="frozen")
 
 
 def _strip(lst):
@@ -296,6 +299,17 @@ def execute(sc):
         for step, op in enumerate(sc["ops"]):
             k = op["op"]
             cls = [k]
+            # the wall clock between two operations: frozen, +1 s, or jumping (forwards by hours, backwards by a minute)
+            if sc.get("clock") == "tick":
+                seams.SimClock.advance(seconds=1)
+                out.fault("clock_forward")
+            elif sc.get("clock") == "jumps" and step:
+                if (sc["seed"] >> (step % 24)) & 1:
+                    seams.SimClock.set(seams.SimClock.peek() - _dt.timedelta(seconds=60))
+                    out.fault("clock_back")
+                else:
+                    seams.SimClock.advance(hours=5)
+                    out.fault("clock_forward")
             if k == "add":
                 g = op["group"]
                 texts = [m["text"] for m in op["members"]]
